@@ -353,7 +353,7 @@ func (e *c19Env) observe(b *BinSrv, setting string, expect string) (got string, 
 func TestC19(t *testing.T) {
 	r := NewReporter(t)
 	defer r.Done()
-	r.Rule("9 settings x 6 channels (flag, environment variable, --config file, PS3NETSRV_CONFIG_FILE file, ./config.ini, user config dir) alone; command-line flag vs every other channel with a conflicting value; malformed values of whitelist / max-clients / root / read-timeout on every channel; 29 alternative spellings of numbers, durations and booleans (leading zeros, radix prefixes, digit separators, unit-less durations, on/yes/t) x 5 channels with the flag as reference: same effect or same refusal everywhere; configuration files with 3000 / 5000 / 70000 bytes of comment lines around the keys; --config naming a FIFO; every configuration file location holding a symbolic link to the real file; every case is one start of the real binary whose behaviour is observed from outside; oracle: flag wins, otherwise the single channel has its effect; malformed -> non-zero exit and never listening; distinct by (setting, channel assignment)")
+	r.Rule("9 settings x 6 channels (flag, environment variable, --config file, PS3NETSRV_CONFIG_FILE file, ./config.ini, user config dir) alone; command-line flag vs every other channel with a conflicting value; malformed values of whitelist / max-clients / root / read-timeout on every channel; 29 alternative spellings of numbers, durations and booleans (leading zeros, radix prefixes, digit separators, unit-less durations, on/yes/t) and 11 root directory names that look like syntax ($, ${}, %, ~, spaces, =, backslashes) x 5 channels with the flag as reference: same effect or same refusal everywhere; configuration files with 3000 / 5000 / 70000 bytes of comment lines around the keys; --config naming a FIFO; every configuration file location holding a symbolic link to the real file; every case is one start of the real binary whose behaviour is observed from outside; oracle: flag wins, otherwise the single channel has its effect; malformed -> non-zero exit and never listening; distinct by (setting, channel assignment)")
 	base := filepath.Join(scratchBase(), sprintf("verifh-c19-%d", os.Getpid()))
 	defer os.RemoveAll(base)
 	type tc struct {
@@ -578,10 +578,20 @@ func TestC19(t *testing.T) {
 		spells = append(spells, spell{"allow-write", v})
 	}
 	spells = append(spells, spell{"json-log", "on"}, spell{"json-log", "T"}, spell{"debug", "on"})
+	// directory names that some layer between the channel and the option might take for syntax (variable references,
+	// home-directory shorthand, escapes): the root is a directory of exactly that name on every channel
+	for _, v := range []string{"ga$mes", "$RECYCLE.BIN", "a${HOME}b", "$HOME", "%TEMP%", "~games", "sp ace", "caf\u00e9 é", "a=b", "back\\slash", "100%"} {
+		spells = append(spells, spell{"root", v})
+	}
 	outcome := func(sp spell, ch string, grace time.Duration) (string, map[string]any) {
 		os.RemoveAll(base)
 		e := newC19Env(base)
 		assigns := []c19Assign{{ch, sp.setting, sp.value}}
+		if sp.setting == "root" {
+			dir := filepath.Join(base, "odd", sp.value)
+			writeFileAbs(filepath.Join(dir, "markerA"), []byte("A"), baseTime)
+			assigns[0].Value = dir
+		}
 		rep := map[string]any{"case": sprintf("%s = %q via %s", sp.setting, sp.value, ch), "assignments": assigns}
 		b, err := e.start(assigns, 30*time.Second)
 		r.Transition(1)
